@@ -61,6 +61,52 @@ def main():
                 "(edit-knob sequence, mode, jobs) shapes; evaluations = real bob invocations incl. oracle clean builds")
     rep.assumptions = ["step scripts are deterministic functions of their declared inputs (generated that way)",
                        "import SCM sources (with prune), two packages; classes/tools are not in the model yet"]
+    num = 120 if quick else 1200
+    jobs = [("main", "BobBuild", "BobBuild_c01.cfg" if quick else "BobBuild_c01_thorough.cfg", dict(coverage=True, timeout=3000))]
+    jobs += [("weak:" + w, "BobBuild", "BobBuild_c01_weak_%s.cfg" % w, dict(timeout=1800)) for w in WEAK]
+    jobs += [("gen", "BobBuild", "BobBuild_c01_gen.cfg", dict(workers=1, simulate="num=%d" % num, depth=260, seed=a.seed + 1, timeout=900))]
+    out = tlc.run_many(jobs, parallel=5)
+    res = out["main"]
+    rep.add_tlc(res, "BobBuild exhaustive, no aborts")
+    if res.violated:
+        rep.violation("model:" + res.violated, {"cex": [c[0] for c in res.cex]})
+    tlc.require_coverage(res, [x for x in ACTIONS if x not in ("Kill", "BuRunFail", "BuRunKilled", "PkRunFail", "PkRunKilled", "CoRunFail",
+                                                              "CoRunKilled", "PrepInval", "BuInval")], "BobBuild_c01.cfg")
+    behaviours = []
+    for w in WEAK:
+        r = out["weak:" + w]
+        if not r.printed:
+            raise tlc.TlcError("weakened model %s produced no counterexample (vacuous weakening)" % w)
+        rep.add_tlc(r, "BobBuild Weak={%s} (counterexample generation)" % w)
+        sel = select(r.printed, 8 if quick else 50, rng)
+        rep.extra.setdefault("weakened_model_counterexamples", {})[w] = {"found": len(r.printed), "replayed": len(sel)}
+        behaviours += [(h, "cex:" + w) for h in sel]
+    g = out["gen"]
+    sel = select(g.printed, 50 if quick else 500, rng, need=lambda h: sum(1 for x in h if x["a"] == "End") >= 2)
+    behaviours += [(h, "simulate") for h in sel]
+    rep.extra["simulated"] = {"generated": len(g.printed), "replayed": len(sel)}
+    cache = common.scratch("vf-c01-oracle-")
+    r = replay_task((0, d["hist"], d.get("origin", "replay"), d.get("mode") == "release", d.get("jobs", 1), cache,
+                     bool(d.get("define"))))
+    for sig, detail in r["violations"]:
+        print("VIOLATION property=%s replay=%s" % (PROP, path))
+        print("  signature: %s" % sig)
+    print("replayed %s: %d violations, drift=%s" % (r["shape"], len(r["violations"]), r["drift"]))
+    return 1 if r["violations"] else 0
+
+
+def main():
+    a = common.args(PROP)
+    if a.replay:
+        return replay_file(a.replay)
+    rep = evidence.Report(PROP, a.tier, a.seed)
+    quick = a.tier == "quick"
+    rng = random.Random(a.seed)
+    rep.rule = ("behaviour = edit/invocation history from TLC (counterexamples of weakened mechanism models + -simulate "
+                "runs) replayed with real bob invocations in develop/release mode, -j1/-j4; non-trivial = distinct "
+                "(edit-knob sequence, mode, jobs) shapes; evaluations = real bob invocations incl. oracle clean builds")
+    rep.assumptions = ["step scripts are deterministic functions of their declared inputs (generated that way)",
+                       "import SCM sources (with prune), two packages; classes/tools are not in the model yet"]
     res = tlc.run("BobBuild", "BobBuild_c01.cfg" if quick else "BobBuild_c01_thorough.cfg", coverage=True, timeout=3000)
     rep.add_tlc(res, "BobBuild exhaustive, no aborts")
     if res.violated:
@@ -69,7 +115,7 @@ def main():
                                                               "PrepInval", "BuInval")] + [], "BobBuild_c01.cfg")
     behaviours = []
     for w in WEAK:
-        r = tlc.run("BobBuild", "BobBuild_c01_weak_%s.cfg" % w, timeout=900, extra=["-continue"])
+        r = tlc.run("BobBuild", "BobBuild_c01_weak_%s.cfg" % w, timeout=900)
         if not r.printed:
             raise tlc.TlcError("weakened model %s produced no counterexample (vacuous weakening)" % w)
         rep.add_tlc(r, "BobBuild Weak={%s} (counterexample generation)" % w)
